@@ -10,6 +10,7 @@
 -/
 import OQuPyVerif.Lemmas.MatMul
 import OQuPyVerif.Lemmas.PathAmp
+import OQuPyVerif.Lemmas.PathGauge
 import OQuPyVerif.Model.Tempo
 
 namespace OQuPyVerif.Props.C05
@@ -113,5 +114,120 @@ theorem covariance (L : ℕ) (ρ0 : ℕ → K) (P1 P2 : ℕ → ℕ → ℕ → 
             · intro _ _; rfl
             · intro e he; exact hinv e b he (Finset.mem_range.mp hb)
           rw [this, matMul_id_right L _ c b (Finset.mem_range.mp hb)]
+
+
+/-! ### Independence of the choice of diagonalisation -/
+
+/-- kernels with the initial index moved to the eigenbasis as well -/
+def kernelE (L : ℕ) (P1 P2 : ℕ → ℕ → ℕ → K) (Uin Uout : ℕ → ℕ → K) (k : ℕ) : ℕ → ℕ → K :=
+  if k ≤ 1 then matMul L Uin (matMul L (P1 k) Uout) else kernelM L P1 P2 Uin Uout k
+
+/-- TEMPO's state written entirely in the eigenbasis (`ρ0 ↦ Uin ρ0`), valid when
+    `Uout · Uin = 1` on the index range (the transform is unitary). -/
+theorem tempoState_eigen_form (L : ℕ) (ρ0 : ℕ → K) (P1 P2 : ℕ → ℕ → ℕ → K)
+    (Uin Uout : ℕ → ℕ → K) (I : ℕ → ℕ → ℕ → ℕ → K)
+    (hUU : ∀ a b, a < L → b < L → matMul L Uout Uin a b = idTable a b) (n out : ℕ) :
+    tempoState L ρ0 P1 P2 Uin Uout I (n+1) out =
+      pathState L (fun a => ∑ b ∈ range L, Uin a b * ρ0 b) (kernelE L P1 P2 Uin Uout) I (n+1)
+        (fun a => matMul L (P2 (n+1)) Uout out a) := by
+  unfold tempoState
+  simp only [Nat.succ_ne_zero, ite_false]
+  rw [pathState_ampl, pathState_ampl]
+  apply pathSum_congr; intro p _
+  congr 2
+  symm
+  apply sysAmpl_congr
+  · intro k a b hk
+    unfold kernelE
+    have : ¬ k ≤ 1 := by omega
+    simp [this]
+  · intro a1
+    have hk1 : kernelE L P1 P2 Uin Uout 1 = matMul L Uin (matMul L (P1 1) Uout) := by
+      unfold kernelE; simp
+    have hk2 : kernelM L P1 P2 Uin Uout 1 = matMul L Uin (P1 1) := by
+      unfold kernelM; simp
+    rw [hk1, hk2]
+    calc ∑ a0 ∈ range L, matMul L Uin (matMul L (P1 1) Uout) a1 a0 * ∑ b ∈ range L, Uin a0 b * ρ0 b
+        = ∑ b ∈ range L, matMul L (matMul L Uin (matMul L (P1 1) Uout)) Uin a1 b * ρ0 b := by
+          simp only [Finset.mul_sum]
+          rw [Finset.sum_comm]
+          apply Finset.sum_congr rfl; intro b _
+          unfold matMul
+          rw [Finset.sum_mul]
+          apply Finset.sum_congr rfl; intro a0 _
+          ring
+      _ = ∑ b ∈ range L, matMul L Uin (P1 1) a1 b * ρ0 b := by
+          apply Finset.sum_congr rfl; intro b hb
+          congr 1
+          rw [matMul_assoc, matMul_congr L Uin Uin _ (P1 1) a1 b (fun _ _ => rfl)]
+          intro c _
+          rw [matMul_assoc]
+          have : matMul L (P1 1) (matMul L Uout Uin) c b = matMul L (P1 1) idTable c b := by
+            apply matMul_congr
+            · intro _ _; rfl
+            · intro e he; exact hUU e b he (Finset.mem_range.mp hb)
+          rw [this, matMul_id_right L _ c b (Finset.mem_range.mp hb)]
+
+/-- **Any two diagonalisations give the same states.**  Let `(Uin, Uout)` and `(Uin', Uout')`
+    be the basis changes of two diagonalisations of the same coupling operator (both unitary:
+    `Uout·Uin = 1`), related by the table `T` (`= Ũ₂†Ũ₁`): `Uin' = T·Uin`, `Uout'·T = Uout`.
+    If `T` only mixes indices with equal keys — `key'` of the second labelling against `key` of
+    the first: permutations of the eigenvalue order, phases, and rotations inside degenerate
+    eigenspaces all qualify — and both influence tables are the same function `J` of the keys
+    (as `influence_matrix`'s are: keys = (difference, sum) of coupling eigenvalues), then every
+    TEMPO state agrees, at every step and for every memory setting. -/
+theorem diag_choice_indep {κ : Type} (L : ℕ) (ρ0 : ℕ → K) (P1 P2 : ℕ → ℕ → ℕ → K)
+    (Uin Uout Uin' Uout' : ℕ → ℕ → K) (I I' : ℕ → ℕ → ℕ → ℕ → K)
+    (J : ℕ → ℕ → κ → κ → K) (T : ℕ → ℕ → K) (key key' : ℕ → κ)
+    (hUU : ∀ a b, a < L → b < L → matMul L Uout Uin a b = idTable a b)
+    (hUU' : ∀ a b, a < L → b < L → matMul L Uout' Uin' a b = idTable a b)
+    (hin : ∀ a b, Uin' a b = matMul L T Uin a b)
+    (hout : ∀ a b, matMul L Uout' T a b = Uout a b)
+    (hI : ∀ n dk a c, a < L → c < L → I n dk a c = J n dk (key a) (key c))
+    (hI' : ∀ n dk a c, a < L → c < L → I' n dk a c = J n dk (key' a) (key' c))
+    (hT : ∀ a' a, a' < L → a < L → key' a' ≠ key a → T a' a = 0) (n out : ℕ) :
+    tempoState L ρ0 P1 P2 Uin' Uout' I' (n+1) out = tempoState L ρ0 P1 P2 Uin Uout I (n+1) out := by
+  rw [tempoState_eigen_form L ρ0 P1 P2 Uin' Uout' I' hUU',
+      tempoState_eigen_form L ρ0 P1 P2 Uin Uout I hUU]
+  -- `X · Uout' · T = X · Uout` and `Uin' · Y = T · Uin · Y`
+  have hR : ∀ (X : ℕ → ℕ → K) a b, matMul L (matMul L X Uout') T a b = matMul L X Uout a b := by
+    intro X a b
+    rw [matMul_assoc]
+    exact matMul_congr L X X _ _ a b (fun _ _ => rfl) (fun c _ => hout c b)
+  have hLft : ∀ (Y : ℕ → ℕ → K) a b, matMul L Uin' Y a b = matMul L T (matMul L Uin Y) a b := by
+    intro Y a b
+    rw [← matMul_assoc]
+    exact matMul_congr L _ _ Y Y a b (fun c _ => hin a c) (fun _ _ => rfl)
+  apply pathState_gauge_table L _ _ _ _ I I' J T key key' hI hI' hT
+  · -- initial vector
+    intro a' _
+    simp only [hin]
+    unfold matMul
+    simp only [Finset.sum_mul, Finset.mul_sum]
+    rw [Finset.sum_comm]
+    apply Finset.sum_congr rfl; intro c _
+    apply Finset.sum_congr rfl; intro b _
+    ring
+  · -- kernels:  M'_k · T = T · M_k
+    intro k a' b _ _
+    show matMul L (kernelE L P1 P2 Uin' Uout' k) T a' b = matMul L T (kernelE L P1 P2 Uin Uout k) a' b
+    unfold kernelE kernelM
+    split
+    · -- k ≤ 1 :  Uin' (P1 Uout') T = T Uin (P1 Uout)
+      rw [matMul_assoc, matMul_congr L Uin' Uin' _ (matMul L (P1 k) Uout) a' b (fun _ _ => rfl)
+        (fun c _ => hR (P1 k) c b)]
+      exact hLft _ a' b
+    · -- k ≥ 2 :  Uin' (P1 (P2 Uout')) T = T Uin (P1 (P2 Uout))
+      rw [matMul_assoc]
+      have h3 : ∀ c, matMul L (matMul L (P1 k) (matMul L (P2 (k-1)) Uout')) T c b
+          = matMul L (P1 k) (matMul L (P2 (k-1)) Uout) c b := by
+        intro c
+        rw [matMul_assoc]
+        exact matMul_congr L _ _ _ _ c b (fun _ _ => rfl) (fun e _ => hR (P2 (k-1)) e b)
+      rw [matMul_congr L Uin' Uin' _ _ a' b (fun _ _ => rfl) (fun c _ => h3 c)]
+      exact hLft _ a' b
+  · -- test covector:  φ' · T = φ
+    intro a _
+    exact hR (P2 (n+1)) out a
 
 end OQuPyVerif.Props.C05
